@@ -14,7 +14,7 @@ from symx.run import Obligation
 from symx.core import SymNum, isna
 from symx import hook
 from oracles import osu as ref_osu, sm as ref_sm, bms as ref_bms, qua as ref_qua, ojn as ref_ojn
-from .common import col, cell_same, same_multiset
+from .common import col, cell_same, same_multiset, same_steps
 from . import c01, c02, c04, c06, c07
 
 PAIRS = [("osu", "qua"), ("osu", "sm"), ("osu", "bms"), ("qua", "osu"), ("qua", "sm"), ("qua", "bms"), ("sm", "osu"), ("sm", "qua"), ("sm", "bms"),
@@ -206,8 +206,7 @@ def tgt_sm(ctx, sp, out, shift):
     ctx.check("target.holds.columns-and-beats", got_l == sorted((c + shift, p, e) for c, p, e in sp.holds), note="%r" % got_l)
     ctx.check("target.other-kinds-empty", all(o["kind"] in ("hit", "hold") for o in ch["objects"]))
     tp = sorted(d["bpms"], key=lambda p: p[0])
-    ctx.check("target.tempo.beats", [b for b, _x in tp] == sp.tb, note="%r" % [b for b, _x in tp])
-    ctx.check("target.tempo.values", ctx.all(*[ctx.eq(x, sp.bpm(i)) for i, (_b, x) in enumerate(tp)]) if len(tp) == 2 else False)
+    ctx.check("target.tempo.same-timeline", same_steps(ctx, [(F(b), x) for b, x in tp], [(sp.tb[i], sp.bpm(i)) for i in range(2)]), note="%r" % [b for b, _x in tp])
     ctx.check("target.title", d["header"].get("#TITLE") == "Song", note="%r" % d["header"].get("#TITLE"))
 
 
@@ -226,8 +225,7 @@ def tgt_bms(ctx, sp, out, shift):
             fil[-1] = (p, v)
         else:
             fil.append((p, v))
-    ctx.check("target.tempo.beats", [p for p, _v in fil] == sp.tb, note="%r" % [p for p, _v in fil])
-    ctx.check("target.tempo.values-to-3-decimals", ctx.all(*[ctx.within(v, sp.bpm(i), F(5001, 10**7), strict=False) for i, (_p, v) in enumerate(fil)]) if len(fil) == 2 else False)
+    ctx.check("target.tempo.same-timeline-to-3-decimals", same_steps(ctx, fil, [(sp.tb[i], sp.bpm(i)) for i in range(2)], F(5001, 10**7)), note="%r" % [p for p, _v in fil])
     ctx.check("target.title", d["header"].get(b"TITLE") == b"Song", note="%r" % d["header"].get(b"TITLE"))
 
 
